@@ -32,16 +32,40 @@ Lemma shipped_unloads_complete_l : forallb row_complete unload_table = true.
 Proof. vm_compute. reflexivity. Qed.
 
 Lemma shipped_unloaded_is_silent_l : forall nm c steps n l later,
-  In (nm, c, steps) unload_table -> loaded c n -> steps_of l = steps ->
+  In (nm, c, steps) unload_table -> loaded c n -> Forall (fun i => item_routed i = true) (l ++ later) ->
+  steps_of l = steps ->
   let n1 := fst (irun c n l) in
   Forall silent_out (snd (irun c n1 later))
   /\ Forall (fun s => s_open s = false) (n_socks (fst (irun c n1 later)))
   /\ unloaded (fst (irun c n1 later)).
 Proof.
-  intros nm c steps n l later Hin L Hs.
-  apply unloaded_is_silent_l; [assumption|].
+  intros nm c steps n l later Hin L Hr Hs.
+  apply unloaded_is_silent_l; [assumption|assumption|].
   pose proof shipped_unloads_complete_l as H. rewrite forallb_forall in H.
   specialize (H _ Hin). unfold row_complete in H. simpl in H. rewrite Hs. exact H.
+Qed.
+
+(* the public coroutines whose sending steps are NOT all tasks of the overlay's manager: exactly these three of
+   HiddenTunnelCommunity (they wait for circuit.ready, which unload() resolves to None by closing the circuit;
+   do_peer_discovery is only ever run as a periodic task).  Everything else - in particular every public
+   coroutine of DHTCommunity and DHTDiscoveryCommunity - sends only through @task steps. *)
+Definition unrouted_api : list (string * string) :=
+  map (fun r => fst r) (filter (fun r => negb (snd r)) public_coroutines).
+
+Lemma shipped_api_unrouted_l :
+  unrouted_api = [("HiddenTunnelCommunity", "create_introduction_point"); ("HiddenTunnelCommunity", "create_rendezvous_point");
+                  ("HiddenTunnelCommunity", "do_peer_discovery")]%string.
+Proof. vm_compute. reflexivity. Qed.
+
+Lemma shipped_api_routed_l : forall c m r,
+  In (c, m, r) public_coroutines -> c <> "HiddenTunnelCommunity"%string -> r = true.
+Proof.
+  intros c m r Hin Hc. destruct r; [reflexivity|]. exfalso.
+  assert (H : In (c, m) unrouted_api).
+  { unfold unrouted_api. apply in_map_iff. exists (c, m, false). split; [reflexivity|].
+    apply filter_In. split; [exact Hin|reflexivity]. }
+  rewrite shipped_api_unrouted_l in H. simpl in H.
+  destruct H as [H|[H|[H|[]]]]; inversion H; subst; apply Hc; reflexivity.
 Qed.
 
 (* every class ipv8_service can load has a row *)
